@@ -176,7 +176,7 @@ def main(tier: str) -> int:
     from fractions import Fraction as _Fr
     kcases = []
     for _ in range(40 if tier == "quick" else 300):
-        kname = rng.choice(["OneMax", "Sphere", "Schwefel12", "Rosenbrock", "Rastrigin", "Griewank", "Elliptic", "Ackley"])
+        kname = rng.choice(["OneMax", "Sphere", "Schwefel12", "Rosenbrock", "Rastrigin", "Griewank", "Elliptic", "Ackley", "ScafferPair"])
         nr, nc = rng.randint(0, 3), rng.randint(2 if kname == "Elliptic" else 1, 5)      # D = 1: the real condition exponent is 0/0
         den = 1 if kname == "Rastrigin" else rng.choice([1, 2, 4])        # integers for Rastrigin: cos(2 pi k) = 1
         Xk = np.array([[rng.randint(-6, 6) / den for _ in range(nc)] for _ in range(nr)], dtype=np.float64).reshape(nr, nc)
@@ -191,15 +191,17 @@ def main(tier: str) -> int:
         exp = staticmethod(lambda u: np.asarray(u, dtype=np.float64) / 2 + 1)
         sqrt = staticmethod(lambda u: np.asarray(u, dtype=np.float64) * 3)
         cos = staticmethod(lambda u: 1 - (np.asarray(u, dtype=np.float64) / (2 * np.pi)) ** 2)
+        sin = staticmethod(lambda u: np.asarray(u, dtype=np.float64) / 4)
+    _SN2 = "(fun s => 9 * s * s / 16) "        # sin(sqrt(s))² under the stand-ins: ((3 s) / 4)²
     _ACK = "(fun u => u / 2 + 1) (fun u => 3 * u) (fun z => 1 - z * z) "
 
     def _real_f(kname, Xk):
-        if kname != "Ackley":
+        if kname not in ("Ackley", "ScafferPair"):
             return cls_of[kname]().f(Xk)
         saved = OP.np
         OP.np = _NpProxy()
         try:
-            return OP.Ackley().f(Xk)
+            return OP.Ackley().f(Xk) if kname == "Ackley" else OP.ExpandedScaffers_F6().Scaffes_F6(Xk)
         finally:
             OP.np = saved
 
@@ -220,11 +222,11 @@ def main(tier: str) -> int:
         tbl = ", ".join("(%d, %s, %s)" % (i, _q(v), _q(np.cos(np.float64(v) / np.sqrt(np.float64(i + 1))))) for i, v in ent)
         return "(fun i a => ((([%s] : List (Nat × Rat × Rat)).find? (fun t => t.1 == i && t.2.1 == a)).map (·.2.2)).getD 0) " % tbl
     klines = ["import TFV.Generated.Src.Bench_OneMax_f", "import TFV.Generated.Src.Bench_Sphere_f", "import TFV.Generated.Src.Bench_Schwefel12_f",
-              "import TFV.Generated.Src.Bench_Rosenbrock_f", "import TFV.Generated.Src.Bench_Rastrigin_f", "import TFV.Generated.Src.Bench_Griewank_f", "import TFV.Generated.Src.Bench_Elliptic_f", "import TFV.Generated.Src.Bench_Ackley_f", "open TFV TFV.Generated.Src",
+              "import TFV.Generated.Src.Bench_Rosenbrock_f", "import TFV.Generated.Src.Bench_Rastrigin_f", "import TFV.Generated.Src.Bench_Griewank_f", "import TFV.Generated.Src.Bench_Elliptic_f", "import TFV.Generated.Src.Bench_Ackley_f", "import TFV.Generated.Src.Bench_ScafferPair", "open TFV TFV.Generated.Src",
               "def showQ : Option (List Rat) → String | none => \"none\" | some v => toString (v.map fun q => (q.num, q.den))"]
     for kname, Xk in kcases:
         mtx = "{ ncols := %d, rows := [%s] }" % (Xk.shape[1], ", ".join("[" + ", ".join("(%d : Rat) / %d" % (_Fr(float(v)).numerator, _Fr(float(v)).denominator) for v in row) + "]" for row in Xk))
-        klines.append("#eval IO.println (showQ (Bench_%s_f %s%s))" % (kname, "(fun _ => 1) " if kname == "Rastrigin" else _csi_table(Xk) if kname == "Griewank" else _cw_table(Xk.shape[1]) if kname == "Elliptic" else _ACK if kname == "Ackley" else "", mtx))
+        klines.append("#eval IO.println (showQ (Bench_%s %s%s))" % ("ScafferPair" if kname == "ScafferPair" else kname + "_f", _SN2 if kname == "ScafferPair" else "(fun _ => 1) " if kname == "Rastrigin" else _csi_table(Xk) if kname == "Griewank" else _cw_table(Xk.shape[1]) if kname == "Elliptic" else _ACK if kname == "Ackley" else "", mtx))
     kaudit = C.LEAN / "TFV" / "Audit" / "C20_np.lean"
     kaudit.parent.mkdir(parents=True, exist_ok=True)
     kaudit.write_text("\n".join(klines) + "\n")
